@@ -501,7 +501,8 @@ Definition build_row (c : list Z * (list (list Z) * list value)) : option db_row
 
 (* the row layout / rowid order are what the translator recognised in sqlite_federated_data.py *)
 Definition db_build (cs : list (list Z * (list (list Z) * list value))) : option (list db_row) :=
-  if sqlite_row_is_id_blob_count && sqlite_reads_in_rowid_order && sqlite_fresh_cursor_per_query then omap build_row cs else None.
+  if sqlite_row_is_id_blob_count && sqlite_reads_in_rowid_order && sqlite_fresh_cursor_per_query &&
+     sqlite_views_forward_constructor_arguments then omap build_row cs else None.
 Definition db_ids (db : list db_row) : list (list Z) := map r_id db.
 Definition db_sizes (db : list db_row) : list (list Z * nat) := map (fun r => (r_id r, r_n r)) db.
 Definition db_clients (db : list db_row) : option (list (list Z * value)) :=
